@@ -183,7 +183,7 @@ class SweepMixin(object):
             got = Counter(_rec_key(r) for r in new_mb)
             if got != exp_mb:
                 self.flag({"C15"}, "usage records of expired mailboxes differ from the facts", st,
-                          {"got": sorted(got.elements()), "expected": sorted(exp_mb.elements())})
+                          {"got": sorted(got.elements(), key=repr), "expected": sorted(exp_mb.elements(), key=repr)})
         exp_np = Counter()
         known = True
         for old in gone_np:
@@ -203,7 +203,7 @@ class SweepMixin(object):
             got = Counter(_rec_key(r) for r in new_np)
             if got != exp_np:
                 self.flag({"C15"}, "usage records of expired nameplates differ from the facts", st,
-                          {"got": sorted(got.elements()), "expected": sorted(exp_np.elements())})
+                          {"got": sorted(got.elements(), key=repr), "expected": sorted(exp_np.elements(), key=repr)})
         # status row
         self.ev["c15_status_row"] += 1
         cur = list(st.uafter["current"].values())
